@@ -175,6 +175,211 @@ theorem no_panic_history (st0 : St) (h0 : Start st0) (ops : List Op) (ha : Addr3
 theorem reachable_inv (st0 : St) (h0 : Start st0) (ops : List Op) (ha : Addr32 ops) :
     Inv (run st0 ops).1 := (run_spec ops st0 h0.inv.1 ha).1
 
+/-! ### the reader's result, block by block
+
+The theorems above speak about the blocks an operation appends through the helper `stepBlks`
+(`Lemmas/Uf2.lean`). The theorems of this section close the link to the **output**: what the independent
+reader decodes from the bytes left after `Drop` is, operation by operation and block by block, exactly
+`opBlocks` — and `opBlocks` is spelled out field by field (`opBlocks_rejected`, `opBlocks_write`,
+`opBlocks_writeAll`), so nothing has to be taken from the definition of the helper. -/
+
+/-- the blocks the reader must find for operation `op` issued in writer state `st` (its block counter is
+`st.count`), when the finished file holds `t` blocks -/
+def opBlocks (st : St) (t : Nat) (op : Op) : List Block := (stepBlks st op).map (toBlock st.cfg t)
+
+/-- C16.g  **The output, block by block.** For every accepted configuration and every history, `Drop`
+succeeds and the reader decodes the output into exactly the concatenation, over the operations in order, of
+`opBlocks` of that operation in the state reached by the earlier operations (`run st0 (ops.take i)`), with
+the final block count as total. -/
+theorem output_blocks (st0 : St) (h0 : Start st0) (ops : List Op) (ha : Addr32 ops) :
+    ∃ (out : List UInt8) (per : List (List Block)), finish (run st0 ops).1 = .ok out ∧
+      read out = some per.flatten ∧ per.length = ops.length ∧
+      ∀ i (h1 : i < per.length) (h2 : i < ops.length),
+        per[i] = opBlocks (run st0 (ops.take i)).1 (run st0 ops).1.count ops[i] := by
+  obtain ⟨hI0, hout0, hcnt0⟩ := h0.inv
+  obtain ⟨hI, hE, _⟩ := run_spec ops st0 hI0 ha
+  have hout : (run st0 ops).1.out = encAll (run st0 ops).1.cfg 0 (runBlks st0 ops).flatten := by
+    rw [hE.out, hout0, hE.cfg]; rfl
+  have hlen : (runBlks st0 ops).flatten.length = (run st0 ops).1.count := by rw [hE.count, hcnt0]; omega
+  obtain ⟨f1, f2, _⟩ := finish_spec _ hI _ hE.ok hout hlen
+  refine ⟨_, (runBlks st0 ops).map (List.map (toBlock st0.cfg (run st0 ops).1.count)), f1, ?_, ?_, ?_⟩
+  · rw [f2, hE.cfg, List.map_flatten]
+  · simp [runBlks_length]
+  · intro i h1 h2
+    have h1' : i < (runBlks st0 ops).length := by simpa using h1
+    simp only [List.getElem_map, opBlocks]
+    rw [runBlks_getElem ops st0 i h2 h1']
+    -- the configuration never changes
+    have hsub : Addr32 (ops.take i) := fun op hop => ha op (List.mem_of_mem_take hop)
+    have hcfg := (run_spec (ops.take i) st0 hI0 hsub).2.1.cfg
+    rw [hcfg]
+
+/-- C16.g.1  a rejected operation contributes no block -/
+theorem opBlocks_rejected (st : St) (t : Nat) (op : Op) (e : WriteErr) (h : (step st op).2 = .err e) :
+    opBlocks st t op = [] := by
+  cases op with
+  | write a d nf =>
+    simp only [step] at h
+    simp only [opBlocks, stepBlks]
+    rcases hw : write st a d nf with ⟨st', r⟩
+    rw [hw] at h
+    cases r <;> simp_all
+  | writeAll a d nf =>
+    simp only [step] at h
+    simp only [opBlocks, stepBlks, h, List.map_nil]
+
+/-- C16.g.2  an accepted `write` contributes nothing for an empty block and otherwise exactly one block:
+the given target address, the configured payload size, the writer's current block number, the block's bytes
+followed by zeros in the 476-byte data area; `flagsOf cfg nf = (1 if not-main-flash) + (0x2000 if a family id is
+configured)`, `infoOf cfg` = the family id or 0 (`Model/Uf2.lean`) -/
+theorem opBlocks_write (st : St) (t a : Nat) (d : List UInt8) (nf : Bool) (n : Nat)
+    (h : (step st (.write a d nf)).2 = .ok n) :
+    opBlocks st t (.write a d nf) =
+      if d = [] then [] else
+        [{ flags := flagsOf st.cfg nf, addr := a, psize := st.cfg.ps,
+           blockNo := st.count, numBlocks := t, fam := infoOf st.cfg,
+           data := d ++ zeros (476 - d.length) }] := by
+  simp only [step] at h
+  simp only [opBlocks, stepBlks]
+  rcases hw : write st a d nf with ⟨st', r⟩
+  rw [hw] at h
+  cases r with
+  | ok u =>
+    simp only [writeBlks]
+    by_cases hd : d = []
+    · subst hd; simp
+    · have hemp : d.isEmpty = false := by simpa using hd
+      simp only [hemp, Bool.false_eq_true, if_false, if_neg hd, List.map_cons, List.map_nil, toBlock]
+  | err e => simp at h
+  | panic s => simp at h
+
+/-- C16.g.3  an accepted `write_all` of `d` at `a` contributes block `k` for exactly the `k` with
+`k·ps < d.length`; block `k` targets `a + k·ps`, carries the `k`-th chunk of `ps` bytes (zero-filled in the
+data area), has payload size `ps` — except the last block, whose payload size is the remaining length
+rounded up to the alignment — and block number `st.count + k`. -/
+theorem opBlocks_writeAll (st : St) (hI : Inv st) (t a : Nat) (ha : a < 4294967296) (d : List UInt8) (nf : Bool)
+    (n : Nat) (h : (step st (.writeAll a d nf)).2 = .ok n) :
+    (∀ k, k < (opBlocks st t (.writeAll a d nf)).length ↔ k * st.cfg.ps < d.length) ∧
+    n = (opBlocks st t (.writeAll a d nf)).length ∧
+    ∀ k (hk : k < (opBlocks st t (.writeAll a d nf)).length),
+      (opBlocks st t (.writeAll a d nf))[k] =
+        { flags := flagsOf st.cfg nf, addr := a + k * st.cfg.ps,
+          psize := (if st.cfg.ps < d.length - k * st.cfg.ps then st.cfg.ps
+                    else roundUp (d.length - k * st.cfg.ps) st.cfg.al),
+          blockNo := st.count + k, numBlocks := t, fam := infoOf st.cfg,
+          data := (d.drop (k * st.cfg.ps)).take st.cfg.ps ++
+                    zeros (476 - ((d.drop (k * st.cfg.ps)).take st.cfg.ps).length) } := by
+  simp only [step] at h
+  have hb : opBlocks st t (.writeAll a d nf) = (allBlks st.cfg nf d.length d a st.count).map (toBlock st.cfg t) := by
+    simp only [opBlocks, stepBlks, h, writeAllBlks]
+  rw [hb]
+  refine ⟨?_, ?_, ?_⟩
+  · intro k
+    rw [List.length_map]
+    exact allBlks_length_iff st.cfg hI.valid.1 nf d.length d a st.count (Nat.le_refl _) k
+  · -- the returned count is the number of appended blocks
+    rw [List.length_map]
+    rcases writeAll_spec st hI a ha d nf with ⟨st', hw, _⟩ | ⟨e, hw, _⟩
+    · rw [hw] at h; simp only [Res.ok.injEq] at h; rw [← h]; rfl
+    · rw [hw] at h; cases h
+  · intro k hk
+    rw [List.length_map] at hk
+    obtain ⟨i1, i2, i3, i4, i5⟩ := allBlks_getElem st.cfg nf d.length d a st.count k hk
+    simp only [List.getElem_map, toBlock, i1, i2, i3, i4, i5]
+
+/-- the blocks one operation contributes have positive payload sizes and pairwise disjoint, ascending target
+ranges (stated on reader-level blocks) -/
+theorem opBlocks_disjoint (st : St) (hI : Inv st) (t : Nat) (op : Op) :
+    (opBlocks st t op).Pairwise (fun b c : Block => b.addr + b.psize ≤ c.addr ∧ b.addr ≠ c.addr) := by
+  have hpos : ∀ b ∈ stepBlks st op, 1 ≤ b.blen := by
+    intro b hb
+    cases op with
+    | write a d nf =>
+      simp only [stepBlks] at hb
+      split at hb
+      · unfold writeBlks at hb
+        split at hb
+        · simp at hb
+        · simp at hb; subst hb; exact hI.valid.1
+      · simp at hb
+    | writeAll a d nf =>
+      simp only [stepBlks] at hb
+      split at hb
+      · exact allBlks_blen_pos st.cfg hI.valid nf _ _ _ _ b hb
+      · simp at hb
+  unfold opBlocks
+  rw [List.pairwise_map]
+  refine List.Pairwise.imp_of_mem ?_ (no_dup_addr st hI op)
+  intro b c hb _ hbc
+  have := hpos b hb
+  simp only [toBlock]
+  exact ⟨hbc, by omega⟩
+
+/-- C16.h  **No address twice, on the output.** In the block list the reader decodes from the finished
+output, the blocks contributed by any one operation (`per[i]`, identified block by block in `output_blocks`)
+have pairwise disjoint target ranges `[addr, addr + payload size)`, in ascending order; in particular no
+target address occurs twice among them. -/
+theorem no_dup_addr_output (st0 : St) (h0 : Start st0) (ops : List Op) (ha : Addr32 ops) :
+    ∃ (out : List UInt8) (per : List (List Block)), finish (run st0 ops).1 = .ok out ∧
+      read out = some per.flatten ∧ per.length = ops.length ∧
+      (∀ i (h1 : i < per.length) (h2 : i < ops.length),
+        per[i] = opBlocks (run st0 (ops.take i)).1 (run st0 ops).1.count ops[i]) ∧
+      ∀ l ∈ per, l.Pairwise (fun b c : Block => b.addr + b.psize ≤ c.addr ∧ b.addr ≠ c.addr) := by
+  obtain ⟨out, per, f1, f2, f3, f4⟩ := output_blocks st0 h0 ops ha
+  refine ⟨out, per, f1, f2, f3, f4, ?_⟩
+  intro l hl
+  obtain ⟨i, hi, rfl⟩ := List.getElem_of_mem hl
+  rw [f4 i hi (by omega)]
+  have hsub : Addr32 (ops.take i) := fun op hop => ha op (List.mem_of_mem_take hop)
+  exact opBlocks_disjoint _ (reachable_inv st0 h0 (ops.take i) hsub) _ _
+
+/-- C16.i  **A rejected write appends no block, on the output**: if operation `i` of a history returns an
+error, the reader finds no block for it (`per[i] = []`), and the writer state — hence everything decoded for
+the other operations — is what it would be without that operation (`rejects_write`, `rejects_writeAll`:
+state unchanged). A rejected *configuration* yields no writer at all (`new`/`new_vec` return `Err` and no
+state, `cfg_valid`), so there is no output to speak of; that the destination stays untouched is observed
+by the correspondence run. -/
+theorem rejected_appends_nothing (st0 : St) (h0 : Start st0) (ops : List Op) (ha : Addr32 ops) :
+    ∃ (out : List UInt8) (per : List (List Block)), finish (run st0 ops).1 = .ok out ∧
+      read out = some per.flatten ∧ per.length = ops.length ∧
+      ∀ i (h1 : i < per.length) (h2 : i < ops.length) (e : WriteErr),
+        (step (run st0 (ops.take i)).1 ops[i]).2 = .err e → per[i] = [] := by
+  obtain ⟨out, per, f1, f2, f3, f4⟩ := output_blocks st0 h0 ops ha
+  refine ⟨out, per, f1, f2, f3, ?_⟩
+  intro i h1 h2 e he
+  rw [f4 i h1 h2]
+  exact opBlocks_rejected _ _ _ e he
+
+/-- C16.j  **Address space.** Every block of an accepted `write_all` lies inside the 32-bit address space
+(`addr + payload size ≤ 2^32`): the padded data is checked against the space left above `addr`. -/
+theorem writeAll_in_address_space (st : St) (hI : Inv st) (t a : Nat) (ha : a < 4294967296) (d : List UInt8)
+    (nf : Bool) (n : Nat) (h : (step st (.writeAll a d nf)).2 = .ok n) :
+    ∀ b ∈ opBlocks st t (.writeAll a d nf), b.addr + b.psize ≤ 4294967296 := by
+  simp only [step] at h
+  intro b hb
+  simp only [opBlocks, stepBlks, h, writeAllBlks, List.mem_map] at hb
+  obtain ⟨c, hc, rfl⟩ := hb
+  have hr := allBlks_range st.cfg hI.valid nf d.length d a st.count c hc
+  rcases writeAll_spec st hI a ha d nf with ⟨st', hw, _, _, hnr⟩ | ⟨e, hw, _⟩
+  · have hd : d ≠ [] := by intro hd; subst hd; simp [allBlks] at hc
+    have : ¬ 4294967296 < a + roundUp d.length st.cfg.al := fun h' => hnr ⟨hd, .inr (.inl h')⟩
+    simp only [toBlock]
+    omega
+  · rw [hw] at h; cases h
+
+/-- C16.j'  **`write` has no such check** (observation, see props/C16.json): a single-block `write` declares
+the full payload size whatever the block's length and is accepted at any 32-bit address, so near the top of
+the address space its target range runs past 2^32 — here payload size 8, four bytes at 0xFFFFFFFF: accepted,
+one block with `addr + psize = 2^32 + 7` — whereas `write_all` of the same bytes at the same address is
+rejected with `Address{need: 4, have: 1}`. `reconstructs`, `output_blocks` and `no_dup_addr_output` cover
+such writes with natural-number addresses (no wrap-around, no hypothesis excluding them). -/
+theorem write_not_address_checked :
+    let st : St := ⟨⟨8, 4, none⟩, [], 0, 0, 1024, false⟩
+    (step st (.write 0xFFFFFFFF [1, 2, 3, 4] false)).2 = .ok 0 ∧
+    (opBlocks st 1 (.write 0xFFFFFFFF [1, 2, 3, 4] false)).map (fun b => (b.addr, b.psize)) = [(0xFFFFFFFF, 8)] ∧
+    (step st (.writeAll 0xFFFFFFFF [1, 2, 3, 4] false)).2 = .err (.address 4 1) := by
+  refine ⟨rfl, rfl, rfl⟩
+
 /-! ### non-vacuity -/
 
 /-- a concrete accepted history: RP2040 configuration, a 5-byte `write_all` and a full single block -/
@@ -188,6 +393,10 @@ hypothesis `Inv` does not bound the counter below 2^32 − 1, and `write` then a
 example : write ⟨⟨8, 4, none⟩, [], 0, 4294967295, 1024, false⟩ 0 [1, 2, 3, 4] false =
     (⟨⟨8, 4, none⟩, [], 0, 4294967295, 1024, false⟩, .err (.blockCount 1 0)) := by
   exact rejects_write_count _ _ _ _ (by simp) (by decide) (by decide) (by decide) rfl
+/-- `opBlocks` is not trivially empty: a 9-byte `write_all` with payload 8, alignment 4 gives two blocks, the
+second with payload size 4 (one byte rounded up to the alignment) -/
+example : (opBlocks ⟨⟨8, 4, none⟩, [], 0, 0, 2048, false⟩ 2 (.writeAll 0x100 [1, 2, 3, 4, 5, 6, 7, 8, 9] false)).map
+    (fun b => (b.addr, b.psize, b.blockNo, b.numBlocks)) = [(0x100, 8, 0, 2), (0x108, 4, 1, 2)] := rfl
 example : checkCfg 256 256 = .ok () ∧ checkCfg 0 1 = .error (.blockSize 0) ∧ checkCfg 8 3 = .error (.alignment 3 8) :=
   ⟨rfl, rfl, rfl⟩
 
